@@ -7,7 +7,15 @@ id="$1"; dir="${2:-$(pwd)/seeded/$id}"; shift; [ $# -gt 0 ] && shift
 wt="/tmp/pfl_seed_$$"
 git -C /repo worktree add -q --detach "$wt" HEAD || exit 2
 trap 'git -C /repo worktree remove --force "$wt"' EXIT
-git -C "$wt" apply "$dir/patch.diff" || { echo "PATCH DOES NOT APPLY"; exit 2; }
+if ! git -C "$wt" apply "$dir/patch.diff" 2>/dev/null; then
+  # written against an older /repo HEAD (see meta.json "written_by"): fall back to that base commit; the witnesses of
+  # findings fixed after it then fail as "(regression case)" lines, which is expected
+  base=$(grep -o 'base commit [0-9a-f]\{7\}' "$dir/meta.json" 2>/dev/null | head -1 | cut -d' ' -f3)
+  [ -n "$base" ] || { echo "PATCH DOES NOT APPLY"; exit 2; }
+  git -C /repo worktree remove --force "$wt"; git -C /repo worktree add -q --detach "$wt" "$base" || exit 2
+  git -C "$wt" apply "$dir/patch.diff" || { echo "PATCH DOES NOT APPLY (HEAD, $base)"; exit 2; }
+  echo "note: patch applied to its base commit $base, not to HEAD"
+fi
 suite=$(cd "$wt" && PYTHONPATH="$wt" timeout 900 /venv/bin/python -m pytest -q -p no:cacheprovider --timeout=900 2>&1 | tail -1)
 ( cd /tmp && PYTHONPATH="$wt" timeout 300 /venv/bin/python "$dir/demo.py" >/dev/null 2>&1 ); d1=$?
 ( cd /tmp && PYTHONPATH=/repo timeout 300 /venv/bin/python "$dir/demo.py" >/dev/null 2>&1 ); d0=$?
